@@ -18,6 +18,8 @@ pub struct ScriptReader {
     pub pos: usize,
     pub calls: usize,
     pub errored: bool,
+    /// first errno other than EINTR the reader returned (0 = none)
+    pub fatal: i32,
 }
 
 #[cfg(kani)]
@@ -27,11 +29,14 @@ impl Read for ScriptReader {
         kani::assume(self.calls <= MAX_CALLS); // bound: scripts of at most MAX_CALLS responses
         let choice: u8 = kani::any();
         if choice == 0 {
-            return Err(Error::Os { msg: "eintr", code: Errno::EINTR });
-        }
-        if choice == 1 {
-            self.errored = true;
-            return Err(Error::Os { msg: "eio", code: Errno::EIO });
+            // any errno: EINTR must be retried, every other one is the reader's error
+            let c: i32 = kani::any();
+            kani::assume(c >= 1 && c <= 4095);
+            if c != Errno::EINTR.raw() && self.fatal == 0 {
+                self.errored = true;
+                self.fatal = c;
+            }
+            return Err(Error::Os { msg: "err", code: Errno::new(c) });
         }
         let rem = self.len - self.pos;
         let k: usize = kani::any();
@@ -52,6 +57,7 @@ pub struct ScriptWriter {
     pub got: [u8; DATA],
     pub n: usize,
     pub calls: usize,
+    pub fatal: i32,
 }
 
 #[cfg(kani)]
@@ -61,10 +67,12 @@ impl Write for ScriptWriter {
         kani::assume(self.calls <= MAX_CALLS);
         let choice: u8 = kani::any();
         if choice == 0 {
-            return Err(Error::Os { msg: "eintr", code: Errno::EINTR });
-        }
-        if choice == 1 {
-            return Err(Error::Os { msg: "eio", code: Errno::EIO });
+            let c: i32 = kani::any();
+            kani::assume(c >= 1 && c <= 4095);
+            if c != Errno::EINTR.raw() && self.fatal == 0 {
+                self.fatal = c;
+            }
+            return Err(Error::Os { msg: "err", code: Errno::new(c) });
         }
         let k: usize = kani::any();
         kani::assume(k <= buf.len() && self.n + k <= DATA);
@@ -85,7 +93,7 @@ impl Write for ScriptWriter {
 pub fn any_reader() -> ScriptReader {
     let len: usize = kani::any();
     kani::assume(len <= DATA);
-    ScriptReader { data: kani::any(), len, pos: 0, calls: 0, errored: false }
+    ScriptReader { data: kani::any(), len, pos: 0, calls: 0, errored: false, fatal: 0 }
 }
 
 #[cfg(kani)]
@@ -111,6 +119,9 @@ pub mod proofs {
             assert!(buf[i] == r.data[i], "delivered_prefix_exact");
             i += 1;
         }
+        if r.fatal != 0 {
+            assert!(res.is_err() && res.as_ref().err().unwrap().matches_errno(Errno::new(r.fatal)), "readers_error_is_surfaced");
+        }
         match res {
             Ok(()) => assert!(r.pos == want, "ok_means_filled_exactly"),
             Err(e) => {
@@ -123,7 +134,7 @@ pub mod proofs {
     #[kani::proof]
     #[kani::unwind(12)]
     pub fn c15_write_all() {
-        let mut w = ScriptWriter { got: [0; DATA], n: 0, calls: 0 };
+        let mut w = ScriptWriter { got: [0; DATA], n: 0, calls: 0, fatal: 0 };
         let src: [u8; DATA] = kani::any();
         let len: usize = kani::any();
         kani::assume(len <= DATA);
@@ -136,6 +147,12 @@ pub mod proofs {
         }
         if res.is_ok() {
             assert!(w.n == len, "ok_means_every_byte_delivered");
+        }
+        if w.fatal != 0 {
+            assert!(res.is_err() && res.as_ref().err().unwrap().matches_errno(Errno::new(w.fatal)), "writers_error_is_returned");
+        }
+        if let Err(e) = &res {
+            assert!(!e.matches_errno(Errno::EINTR), "EINTR_is_retried");
         }
     }
 }
